@@ -161,3 +161,16 @@ Theorem C18_ms_pr2_agree_under_guard : forall n B C,
   all_ge B -> all_ge C -> dimc n B -> dimc (n + n) C -> guard_in_before n B C ->
   ((exists q, sat_cons (ms_mip n (joint n B C)) q) <-> (exists u, sat_cons (pr_mip n B C) u)).
 Proof. exact ms_pr2_agree_under_guard. Qed.
+
+(* ---- the PR spaces as exact projections (what the judge compares all_affine_ranking_functions_PR* with) ---- *)
+Require Import PPLV.Term.Spaces.
+
+Theorem C18_pr_space_exact : forall n B C q,
+  sat_sys (pr_space n B C) q <->
+  exists u, sat_cons (pr_all n B C) u /\ forall j, (j < n)%nat -> q j == pr_mu C 0 u j.
+Proof. exact pr_space_exact. Qed.
+
+Theorem C18_pr_original_space_exact : forall n cs q,
+  sat_sys (pro_space n cs) q <->
+  exists l, sat_cons (pro_all n cs) l /\ forall j, (j < n)%nat -> q j == pr_mu cs (length cs) l j.
+Proof. exact pro_space_exact. Qed.
